@@ -263,7 +263,7 @@ def run(ctx, chk):
     # --- R6 REP protocol
     rep_rule(ctx, chk)
     # --- R7 driver
-    drv = P.by_name.get(("bin", "driver::driver::CMDDriver::run"))
+    drv = P.find("bin", "driver::driver::CMDDriver::run")
     if drv is None:
         chk.undecided_("C07.R7", "CMDDriver::run", "driver not found")
     else:
@@ -280,7 +280,7 @@ def run(ctx, chk):
 def rep_rule(ctx, chk):
     P = ctx.program
     G = ctx.gram("interpreter")
-    sadt = P.adts.get("util::interpreter_util::State")
+    sadt = P.find_adt("util::interpreter_util::State")
     vname = {i: v["name"] for i, v in enumerate(sadt["variants"])}
     ai = arch_index(P)
     PREFIXES = ("rep", "repz", "repe", "repnz", "repne")
